@@ -1064,6 +1064,9 @@ class Server:
             await self.user_manager.notify_logout(connection.user)
         del connection.user
         del connection.logged
+        # a rename source accepted for the previous login must not be usable
+        # by the next one (it is a real path under the previous base_path)
+        del connection.rename_from
         state, user, info = await self.user_manager.get_user(rest)
         if state == AbstractUserManager.GetUserResponse.OK:
             code = "230"
